@@ -4,7 +4,12 @@
 
 package meeklite
 
-import "fmt"
+import (
+	"errors"
+	"fmt"
+	"net"
+	gourl "net/url"
+)
 
 // VerifConstants returns the package constants as the compiler evaluated them.
 func VerifConstants() map[string]string {
@@ -16,5 +21,19 @@ func VerifConstants() map[string]string {
 	put("maxPollInterval", int64(maxPollInterval))
 	put("maxRetries", maxRetries)
 	put("retryDelay", int64(retryDelay))
+	// the timeouts of the http.Transport a connection is built with (facts about newMeekConn,
+	// read off a real conn that never touches the network): a request is never given up — and
+	// hence never re-sent — because its answer is slow
+	u, _ := gourl.Parse("http://meek.invalid/")
+	if c, err := newMeekConn(func(string, string) (net.Conn, error) { return nil, errors.New("verif: no network") },
+		&meekClientArgs{url: u}); err == nil {
+		if mc, ok := c.(*meekConn); ok && mc.transport != nil {
+			put("transportResponseHeaderTimeout", int64(mc.transport.ResponseHeaderTimeout))
+			put("transportExpectContinueTimeout", int64(mc.transport.ExpectContinueTimeout))
+			put("transportIdleConnTimeout", int64(mc.transport.IdleConnTimeout))
+			put("transportTLSHandshakeTimeout", int64(mc.transport.TLSHandshakeTimeout))
+		}
+		c.Close()
+	}
 	return m
 }
